@@ -47,7 +47,7 @@ CHECKS = {
              'pool variables at arbitrary points (bound before, after, through chains, inside structures; four assert routes incl. compiled code '
              'with the goal in a bound variable). Every answer of every use is compared with a model in which ASSERT stores the fully resolved term with '
              'fact-local variables and each use renames it apart - over the pattern and over every pool variable, so any aliasing between a fact, its '
-             'uses and the asserting context is visible. Stores may be prefilled with 33-70 unrelated facts; selective retractall, asserts and uses that overflow the stack half-way are part of the histories.',
+             'uses and the asserting context is visible. Stores may be prefilled with 33-70 unrelated facts; selective retractall, asserts and uses that overflow the stack half-way are part of the histories. A third of the histories also store equal-but-different Python constants (1, True, 1.0; 0, False, 0.0, \'\', None) first and read them back by type and repr afterwards.',
         note='A use starts at its first next(); frames end LIFO; matches that would need cyclic terms end the run without verdict. Trusts model unifier + 60-line store model.'),
     'C14': dict(
         category='exploration', design_ref='DESIGN.md section 4, C14',
